@@ -62,13 +62,39 @@ def compare_mirror(res, t, A, B, spA):
             a, b = pair("Rxy", suf)
             az, bz = pair("Zxy", suf)
             worst["pos" + suf] = max(worst.get("pos" + suf, 0), float(np.max(np.hypot(a - b, az + bz))))
-        # cell corners: lower-left of cell j <-> upper-left of mirrored cell ny-1-j; lower-right <-> upper-right
+        # cell corners: lower-left of cell j <-> upper-left of mirrored cell ny-1-j; lower-right <-> upper-right.
+        # Rows on a branch cut through an X-point: each region's points there start a fraction xpoint_offset of the first segment away
+        # from the X-point, on the side the region *starts* from, and the upper boundary of a region is copied from the lower
+        # boundary of its neighbour; reversing y exchanges start and end, so these rows may differ by up to 2*xpoint_offset*first
+        # segment. They get that tolerance; every other point the tight one. (The first version of this check used the tight tolerance
+        # everywhere and raised a false alarm of 5e-5 m on exactly these rows.)
+        xoff = spA["options"].get("xpoint_offset", 0.1)
+        at_start, at_end = r["starts_at_xpoint"], r["ends_at_xpoint"]
         for ca, cb in (("_corners", "_upper_left_corners"), ("_lower_right_corners", "_upper_right_corners")):
             a = va["Rxy" + ca][sa[0], sa[1]]
             az = va["Zxy" + ca][sa[0], sa[1]]
             b = vb["Rxy" + cb][sb[0], sb[1]][:, ::-1]
             bz = vb["Zxy" + cb][sb[0], sb[1]][:, ::-1]
-            worst["corners"] = max(worst.get("corners", 0), float(np.max(np.hypot(a - b, az + bz))))
+            d = np.hypot(a - b, az + bz)
+            if at_start and d.shape[1] > 1:
+                seg = np.hypot(a[:, 1] - a[:, 0], az[:, 1] - az[:, 0])
+                worst["branch-cut-row/(2*xpoint_offset*segment)"] = max(worst.get("branch-cut-row/(2*xpoint_offset*segment)", 0), float(np.max(d[:, 0] / (2 * xoff * seg))))
+                d = d[:, 1:]
+            if d.size:
+                worst["corners"] = max(worst.get("corners", 0), float(np.max(d)))
+        # upper corners of the last cell of A <-> lower corners of the first cell of B
+        for ca, cb in (("_upper_left_corners", "_corners"), ("_upper_right_corners", "_lower_right_corners")):
+            a = va["Rxy" + ca][sa[0], sa[1]][:, -1]
+            az = va["Zxy" + ca][sa[0], sa[1]][:, -1]
+            b = vb["Rxy" + cb][sb[0], sb[1]][:, 0]
+            bz = vb["Zxy" + cb][sb[0], sb[1]][:, 0]
+            d = np.hypot(a - b, az + bz)
+            if at_end:
+                a2, az2 = va["Rxy" + ca][sa[0], sa[1]][:, -2], va["Zxy" + ca][sa[0], sa[1]][:, -2]
+                seg = np.hypot(a - a2, az - az2)
+                worst["branch-cut-row/(2*xpoint_offset*segment)"] = max(worst.get("branch-cut-row/(2*xpoint_offset*segment)", 0), float(np.max(d / (2 * xoff * seg))))
+            else:
+                worst["corners"] = max(worst.get("corners", 0), float(np.max(d)))
         # y-faces: ylow of cell j+1 <-> ylow of mirrored cell ny-1-j (inside the region only)
         a, az = va["Rxy_ylow"][sa[0], sa[1]][:, 1:], va["Zxy_ylow"][sa[0], sa[1]][:, 1:]
         b, bz = vb["Rxy_ylow"][sb[0], sb[1]][:, ::-1][:, :-1], vb["Zxy_ylow"][sb[0], sb[1]][:, ::-1][:, :-1]
@@ -89,8 +115,8 @@ def compare_mirror(res, t, A, B, spA):
                     continue
                 worst[name + suf] = max(worst.get(name + suf, 0), rel(a, b))
     res.extra.setdefault("mirror_worst", {})[t] = {k: v for k, v in sorted(worst.items(), key=lambda kv: -kv[1])[:6]}
-    bad_pos = {k: v for k, v in worst.items() if (k.startswith("pos") or k == "corners") and v > 2e-6}
-    bad_f = {k: v for k, v in worst.items() if not (k.startswith("pos") or k == "corners") and v > 2e-4}
+    bad_pos = {k: v for k, v in worst.items() if (k.startswith("pos") or k == "corners") and v > 2e-6 or k.startswith("branch-cut") and v > 0.1}
+    bad_f = {k: v for k, v in worst.items() if not (k.startswith("pos") or k == "corners" or k.startswith("branch-cut")) and v > 2e-4}
     if bad_pos:
         k = max(bad_pos, key=bad_pos.get)
         res.violation("mirror-positions:" + t, "%s: the grid of the mirror image is not the reflected grid with y reversed: %s differ by %.2e m" % (t, k, bad_pos[k]), {"spec": spA, "worst": bad_pos})
@@ -143,8 +169,13 @@ def compare_reversal(res, t, kind, A, B, spA):
             if sg.size and not (np.all(sg > 0) or np.all(sg < 0)):
                 worst["mixed-sign:" + name] = 1.0
     res.extra.setdefault("reversal_worst", {})[t] = {k: v for k, v in sorted(worst.items(), key=lambda kv: -kv[1])[:6]}
-    pos = {k: v for k, v in worst.items() if k.startswith(("Rxy", "Zxy")) and v > 1e-9}
-    oth = {k: v for k, v in worst.items() if not k.startswith(("Rxy", "Zxy")) and v > 1e-6}
+    # sign reversals reproduce the arithmetic exactly (observed 4e-16); dividing psi by 2*pi rescales every absolute tolerance given in
+    # psi units (refine_atol, leg/X-point refinement), which moves points *along* their surfaces by up to 1.5e-6 m at
+    # finecontour_Nfine=40: that pair is compared at the tolerance used for the mirror pairs. (The first version used 1e-9 for all
+    # three kinds and raised a false alarm on psi_divide_twopi.)
+    tp, tf = (1e-9, 1e-6) if kind != "twopi" else (1e-5, 2e-4)
+    pos = {k: v for k, v in worst.items() if k.startswith(("Rxy", "Zxy")) and v > tp}
+    oth = {k: v for k, v in worst.items() if not k.startswith(("Rxy", "Zxy")) and v > tf}
     if pos:
         k = max(pos, key=pos.get)
         res.violation("reversal-positions:%s" % t, "%s: grid positions change under the field reversal (%s by %.2e relative)" % (t, k, pos[k]), {"spec": spA})
